@@ -1,6 +1,7 @@
 """Path exploration of one lemma (harness function) + per-path native differential replay."""
 from __future__ import annotations
 
+import os
 import time
 import traceback
 from dataclasses import dataclass, field
@@ -169,6 +170,8 @@ def explore(name: str, fn, *, allowed_exc: tuple = (), max_paths: int = 20000, t
                 # unexpected exception = violation candidate of the implicit clause "no unexpected exception"
                 clause = "no_unexpected_exception:" + outcome.split(":", 1)[1]
                 tb = "".join(traceback.format_exception_only(type(exc_obj), exc_obj)).strip()[:300]
+                if os.environ.get("VERIF_DEBUG"):
+                    tb += " || " + "".join(traceback.format_tb(exc_obj.__traceback__)[-8:])
                 kp = [p for (cl, p) in known if cl == clause]
                 kn = None
                 if kp:
